@@ -141,8 +141,22 @@ def decide(prop: str, vres: dict, kani: dict, tier: str, seed: int, t0: float, m
     # --- failures
     viol, known_hits, uncovered = [], [], []
     failed_obls = set()
+    # functions whose proof is incomplete on this tree (a proof hint / loop contract lost its anchor, an outlined region changed):
+    # their failing obligations are "undecided", never alarms -- an unprovable overflow or postcondition there may only mean
+    # that the hint which proves it is gone
+    incomplete = set()
+    for u in rep.get('unanchored', []):
+        w = u['what']
+        incomplete.add(w[3:] if w.startswith('fn ') else w.split()[0])
+    for o in rep.get('outlines', []):
+        if not o['unchanged']:
+            incomplete.add(o['fn'])
     for f in vres.get('failures', []):
         fi = fninfo.get(f.get('fn'))
+        if f.get('fn') in incomplete and f['class'] != 'unsupported':
+            if f.get('fn') in fns_serving:
+                undecided.append('%s fails in %s, whose proof lost an anchor on this tree' % (f['class'], f.get('fn')))
+            continue
         if (f.get('fn') or '').startswith('spec::'):
             undecided.append('specification library does not verify: %s (%s)' % (f['fn'], f['message'][:80]))
             continue
